@@ -16,13 +16,23 @@ for m in internal/integration internal/backcompat internal/grpccompat internal/t
   ( cd $m && go test -count=1 ./... >/tmp/sv.sub.$$ 2>&1 ) || { if grep -q "FAIL: TestCancelRepeatedPooled" /tmp/sv.sub.$$ && [ $(grep -c "^--- FAIL" /tmp/sv.sub.$$) -eq 1 ]; then echo "(flaky TestCancelRepeatedPooled in $m ignored)"; else suite_ok=0; grep -E "^(--- FAIL|FAIL)" /tmp/sv.sub.$$ | head -5; fi; }
 done
 echo "existing suite with change: $([ $suite_ok = 1 ] && echo pass || echo FAIL)"
-demos=$(ls $sd/$pat 2>/dev/null)
-cp $demos $pkgdir/
-names=$(grep -ho "^func Test[A-Za-z0-9_]*" $demos | sed 's/func //' | paste -sd'|')
-( cd $pkgdir && go test -count=1 -timeout $to -run "^($names)\$" . >/tmp/sv.demo1.$$ 2>&1 ); rc1=$?
-echo "demo with change: rc=$rc1 $(tail -3 /tmp/sv.demo1.$$ | tr '\n' ' ' | cut -c1-200)"
+# demo files: top-level ones go to $pkgdir; files delivered in a sub-directory that names a package directory go there
+dirs=""
+names=""
+for f in $(cd $sd && find . -maxdepth 3 -name "$pat" -name '*_test.go' | sed 's#^\./##'); do
+  d=$(dirname $f)
+  if [ "$d" = "." ] || [ ! -d "$wt/$d" ]; then d=$pkgdir; fi
+  cp $sd/$f $wt/$d/
+  dirs="$dirs $d"
+  names="$names $(grep -ho "^func Test[A-Za-z0-9_]*" $sd/$f | sed 's/func //')"
+done
+dirs=$(echo $dirs | tr ' ' '\n' | sort -u | tr '\n' ' ')
+names=$(echo $names | tr ' ' '|')
+run_demo() { local rc=0; for d in $dirs; do ( cd $wt/$d && go test -count=1 -timeout $to -run "^($names)\$" . >>$1 2>&1 ) || rc=1; done; return $rc; }
+: > /tmp/sv.demo1.$$; run_demo /tmp/sv.demo1.$$; rc1=$?
+echo "demo with change: rc=$rc1 $(grep -E "^(FAIL|ok|---)" /tmp/sv.demo1.$$ | tail -3 | tr '\n' ' ' | cut -c1-200)"
 git apply -R $sd/patch.diff
-( cd $pkgdir && go test -count=1 -timeout $to -run "^($names)\$" . >/tmp/sv.demo2.$$ 2>&1 ); rc2=$?
-echo "demo without change: rc=$rc2 $(tail -2 /tmp/sv.demo2.$$ | tr '\n' ' ' | cut -c1-200)"
+: > /tmp/sv.demo2.$$; run_demo /tmp/sv.demo2.$$; rc2=$?
+echo "demo without change: rc=$rc2 $(grep -E "^(FAIL|ok|---)" /tmp/sv.demo2.$$ | tail -2 | tr '\n' ' ' | cut -c1-200)"
 rm -f /tmp/sv.*.$$
 if [ $suite_ok = 1 ] && [ $rc1 -ne 0 ] && [ $rc2 -eq 0 ]; then echo "RESULT confirmed"; else echo "RESULT NOT-confirmed"; fi
